@@ -1,0 +1,144 @@
+// Copyright 2026 SCION Association
+//
+// Licensed under the Apache License, Version 2.0 (the "License");
+// you may not use this file except in compliance with the License.
+// You may obtain a copy of the License at
+//
+//   http://www.apache.org/licenses/LICENSE-2.0
+//
+// Unless required by applicable law or agreed to in writing, software
+// distributed under the License is distributed on an "AS IS" BASIS,
+// WITHOUT WARRANTIES OR CONDITIONS OF ANY KIND, either express or implied.
+// See the License for the specific language governing permissions and
+// limitations under the License.
+
+//go:build verif
+
+// This file is only compiled with the "verif" build tag. It exports thin wrappers around
+// unexported parts of the data plane so that an external verification harness can drive the
+// real packet processors and observe their decisions. It adds no behaviour.
+
+package router
+
+import (
+	"net"
+	"unsafe"
+
+	"github.com/scionproto/scion/pkg/slayers"
+)
+
+// VerifDisposition mirrors the unexported disposition type.
+type VerifDisposition int
+
+const (
+	VerifDiscard  = VerifDisposition(pDiscard)
+	VerifForward  = VerifDisposition(pForward)
+	VerifSlowPath = VerifDisposition(pSlowPath)
+	VerifDone     = VerifDisposition(pDone)
+)
+
+const (
+	VerifBufSize     = bufSize
+	VerifMinHeadroom = minHeadroom
+	// Slow-path request kinds other than SCMP error types (which are >= 0).
+	VerifSlowPathRouterAlertIngress = int(slowPathRouterAlertIngress)
+	VerifSlowPathRouterAlertEgress  = int(slowPathRouterAlertEgress)
+)
+
+// VerifSetConnOpener installs a connection opener in the named underlay provider of the
+// connector's data plane (must be called before any interface is added).
+func VerifSetConnOpener(c *Connector, underlay string, opener any) {
+	c.DataPlane.underlays[underlay].SetConnOpener(opener)
+}
+
+// VerifLink returns the link the data plane associates with the given interface ID (nil if none).
+func VerifLink(c *Connector, ifID uint16) Link {
+	return c.DataPlane.interfaces[ifID]
+}
+
+// VerifPortRange returns the dispatched port range as stored in the data plane.
+func VerifPortRange(c *Connector) (uint16, uint16) {
+	return c.DataPlane.dispatchedPortStart, c.DataPlane.dispatchedPortEnd
+}
+
+// VerifPacketPool returns the data plane's packet pool (valid once running).
+func VerifPacketPool(c *Connector) PacketPool {
+	return c.DataPlane.packetPool
+}
+
+// VerifPoolCap returns the capacity and current fill of the packet pool.
+func VerifPoolCap(c *Connector) (int, int) {
+	return cap(c.DataPlane.packetPool.pool), len(c.DataPlane.packetPool.pool)
+}
+
+// VerifIsRunning reports the data plane's running flag.
+func VerifIsRunning(c *Connector) bool {
+	return c.DataPlane.isRunning()
+}
+
+// VerifNewPacket makes a packet the way the receive path does: a private buffer, the payload
+// placed after headroom bytes, the ingest link and (for unconnected links) the source address.
+func VerifNewPacket(raw []byte, headroom int, link Link, remote *net.UDPAddr) *Packet {
+	p := &Packet{}
+	p.init(&[bufSize]byte{})
+	p.reset(headroom)
+	p.RawPacket = p.RawPacket[:len(raw)]
+	copy(p.RawPacket, raw)
+	p.Link = link
+	if remote != nil {
+		p.RemoteAddr = unsafe.Pointer(remote)
+	}
+	return p
+}
+
+// VerifRefill re-initializes an existing packet for a new input (keeps the buffer).
+func VerifRefill(p *Packet, raw []byte, headroom int, link Link, remote *net.UDPAddr) {
+	p.reset(headroom)
+	p.RawPacket = p.RawPacket[:len(raw)]
+	copy(p.RawPacket, raw)
+	p.Link = link
+	p.RemoteAddr = nil
+	if remote != nil {
+		p.RemoteAddr = unsafe.Pointer(remote)
+	}
+}
+
+// VerifEgress returns the egress interface the processor assigned to the packet.
+func VerifEgress(p *Packet) uint16 { return p.egress }
+
+// VerifRemoteAddr returns the packet's remote address as set by the udpip underlay.
+func VerifRemoteAddr(p *Packet) *net.UDPAddr { return (*net.UDPAddr)(p.RemoteAddr) }
+
+// VerifBufferOffset returns the offset of RawPacket within the packet buffer.
+func VerifBufferOffset(p *Packet) int { return len(p.buffer) - cap(p.RawPacket) }
+
+// VerifSlowPathRequest returns the pending slow-path request: kind (SCMP type if >= 0, else one
+// of the router-alert kinds), SCMP code and pointer.
+func VerifSlowPathRequest(p *Packet) (int, slayers.SCMPCode, uint16) {
+	return int(p.slowPathRequest.spType), p.slowPathRequest.code, p.slowPathRequest.pointer
+}
+
+// VerifProc bundles one fast-path and one slow-path processor of a data plane, as one processing
+// goroutine and one slow-path goroutine would own them.
+type VerifProc struct {
+	fast *scionPacketProcessor
+	slow *slowPathPacketProcessor
+}
+
+// VerifNewProc creates the processors. The forwarding key must have been set.
+func VerifNewProc(c *Connector) *VerifProc {
+	return &VerifProc{
+		fast: newPacketProcessor(&c.DataPlane),
+		slow: newSlowPathProcessor(&c.DataPlane),
+	}
+}
+
+// Fast runs the fast-path processor on the packet.
+func (v *VerifProc) Fast(p *Packet) VerifDisposition {
+	return VerifDisposition(v.fast.processPkt(p))
+}
+
+// Slow runs the slow-path processor on a packet for which Fast returned VerifSlowPath.
+func (v *VerifProc) Slow(p *Packet) error {
+	return v.slow.processPacket(p)
+}
